@@ -96,16 +96,27 @@ def run(run):
         root = C.scratch("c04proj")
         try:
             rels = {}
-            for i in range(3):
+            for i in range(12):
                 g = G.Gen(random.Random(rng.random()), G.Opts(unique=True, classes=1, methods=2, stmts=3, depth=1, eol=rng.choice(["\n", "\r\n"])))
-                rels["a/b%d/F%d.java" % (i, i)] = g.file("P%d_" % i)[0].encode("utf-8")
+                rels["a/b%d/F%d.java" % (i % 4, i)] = g.file("P%d_" % i)[0].encode("utf-8")
             for rel, b in rels.items():
                 p = os.path.join(root, rel)
                 os.makedirs(os.path.dirname(p), exist_ok=True)
                 open(p, "wb").write(b)
-            r = h.call(op="scan", dir=root, graph="p")
+            # entries the walk lists as .java files but that cannot be opened (dangling links), after and between
+            # the readable ones: nothing may be reported for them, whatever a worker parsed just before
+            for i in range(10):
+                os.symlink(os.path.join(root, "nowhere%d.java" % i), os.path.join(root, "a", "b%d" % (i % 4), "G%d_gone.java" % i))
+            os.makedirs(os.path.join(root, "zz"), exist_ok=True)
+            for i in range(6):
+                os.symlink(os.path.join(root, "nowhere.java"), os.path.join(root, "zz", "Gone%d.java" % i))
             scanned = {os.path.join(root, rel): b for rel, b in rels.items()}
-            for n in r["nodes"]:
+            all_nodes = []
+            for rep in range(3):
+                r = h.call(op="scan", dir=root, graph="p")
+                stats["project_scans"] += 1
+                all_nodes += r["nodes"] if rep else []
+            for n in all_nodes + r["nodes"]:
                 stats["entities"] += 1
                 if n["file"] not in scanned:
                     run.violation("C04:file-not-scanned", "reported file %r is not a scanned file" % n["file"], dict(files=sorted(rels)))
